@@ -348,6 +348,11 @@ class HTTPConnection(_HTTPConnection):
             self.proxy_is_verified = None
             self._has_connected_to_proxy = False
             self._response_options = None
+            # Drop the header lines of a request that was rejected before it
+            # was sent; http.client would send them ahead of the next request.
+            unsent = getattr(self, "_buffer", None)
+            if unsent:
+                del unsent[:]
             self._tunnel_host = None
             self._tunnel_port = None
             self._tunnel_scheme = None
